@@ -105,6 +105,33 @@ func runNet(s *vsimcore.Sim, p vsimcore.Params) vsimcore.RunInfo {
 	}
 	w := newVzWorld(s, cfg)
 	stalled := false
+	fill := func() {
+		maxFin := uint64(0)
+		for h := range w.orc.finalized {
+			if h > maxFin {
+				maxFin = h
+			}
+		}
+		reached := 0
+		if maxFin >= cfg.initialHeight {
+			reached = int(maxFin - cfg.initialHeight + 1)
+		}
+		if stalled {
+			s.Probe("protocol_stalled_before_target")
+		}
+		if s.Steps >= cfg.maxSteps {
+			s.Probe("step_cap_reached")
+		}
+		nFaults := 0
+		for _, v := range s.Faults {
+			nFaults += v
+		}
+		info.Nontrivial = reached >= 1
+		info.Extra = map[string]int{"heights_finalized": reached}
+		info.States = []string{fmt.Sprintf("n%d/b%d/h%d/f%d/st%t", cfg.nVal, cfg.nByz, reached, min(nFaults, 5), stalled)}
+		info.Sample = map[string]any{"harness": "net", "validators": cfg.nVal, "byzantine": cfg.nByz, "powers": cfg.powers, "initial_height": cfg.initialHeight,
+			"target_heights": cfg.heights, "heights_finalized": reached, "steps": s.Steps, "faults": s.Faults, "first_events": w.notes}
+	}
 	s.Bubble(func() {
 		w.rootCtx, w.rootCancel = context.WithCancel(context.Background())
 		w.installHooks()
@@ -131,32 +158,10 @@ func runNet(s *vsimcore.Sim, p vsimcore.Params) vsimcore.RunInfo {
 		}
 		stalled = w.run(done, w.byzActions)
 		info.SimNs = int64(s.SimTime())
+		fill()
+		s.Checkpoint(info)
 		w.shutdown()
 	})
-	maxFin := uint64(0)
-	for h := range w.orc.finalized {
-		if h > maxFin {
-			maxFin = h
-		}
-	}
-	reached := 0
-	if maxFin >= cfg.initialHeight {
-		reached = int(maxFin - cfg.initialHeight + 1)
-	}
-	if stalled {
-		s.Probe("protocol_stalled_before_target")
-	}
-	if s.Steps >= cfg.maxSteps {
-		s.Probe("step_cap_reached")
-	}
-	nFaults := 0
-	for _, v := range s.Faults {
-		nFaults += v
-	}
-	info.Nontrivial = reached >= 1
-	info.Extra = map[string]int{"heights_finalized": reached}
-	info.States = []string{fmt.Sprintf("n%d/b%d/h%d/f%d/st%t", cfg.nVal, cfg.nByz, reached, min(nFaults, 5), stalled)}
-	info.Sample = map[string]any{"harness": "net", "validators": cfg.nVal, "byzantine": cfg.nByz, "powers": cfg.powers, "initial_height": cfg.initialHeight,
-		"target_heights": cfg.heights, "heights_finalized": reached, "steps": s.Steps, "faults": s.Faults, "first_events": w.notes}
+	fill()
 	return info
 }
